@@ -327,11 +327,18 @@ Definition limit_of (c : config) (t : sid) : limit :=
   | Span _ => lim_conn c (* never used: a span copies its owner's limit *)
   end.
 
+(* net.IP.To4: an IPv4-mapped IPv6 address ::ffff:a.b.c.d is taken as a.b.c.d.
+   The allow-list matches with net.IPNet.Contains, which unmaps; the connection
+   limiter works on netip.Addr / netip.Prefix, which do not (a mapped address is
+   an IPv6 key there, when added and when removed) *)
+Definition unmap (a : ipaddr) : ipaddr :=
+  if ip_v6 a && (Z.shiftr (ip_val a) 32 =? 65535) then mkIp false (Z.land (ip_val a) 4294967295) else a.
+
 (* Allowlist.Allowed / AllowedPeerAndMultiaddr *)
 Definition allowed (c : config) (a : ipaddr) : bool :=
-  existsb (fun e => contains (fst e) a) (allow_nets c).
+  existsb (fun e => contains (fst e) (unmap a)) (allow_nets c).
 Definition allowed_peer (c : config) (q : nat) (a : ipaddr) : bool :=
-  existsb (fun e => contains (fst e) a &&
+  existsb (fun e => contains (fst e) (unmap a) &&
                     match snd e with None => true | Some q' => Nat.eqb q q' end) (allow_nets c).
 
 (* sortNetworkPrefixes: stable, most specific first (insertion sort is stable) *)
